@@ -1,1 +1,841 @@
-pub fn placeholder() {}
+//! Program generator: modules of mutually related Rust type definitions in the fragment that
+//! serde and ts-rs both support, rendered to Rust source together with value generators
+//! (`impl rt::Gen`) and registry lines. All randomness comes from a word tape (`&[u32]`) that
+//! the driver obtains from a proptest strategy, so a module is a pure function of seed and
+//! profile.
+
+pub mod model;
+pub mod render;
+
+pub use model::*;
+
+pub struct Tape<'a> {
+    w: &'a [u32],
+    pos: usize,
+}
+
+impl<'a> Tape<'a> {
+    pub fn new(w: &'a [u32]) -> Self {
+        Tape { w, pos: 0 }
+    }
+    pub fn word(&mut self) -> u32 {
+        let v = self.w.get(self.pos).copied().unwrap_or(0);
+        self.pos += 1;
+        v
+    }
+    pub fn choose(&mut self, n: usize) -> usize {
+        if n <= 1 {
+            self.pos += 1;
+            return 0;
+        }
+        ((self.word() as u64 * n as u64) >> 32) as usize
+    }
+    /// true with probability p percent (an exhausted tape says no)
+    pub fn pct(&mut self, p: u32) -> bool {
+        (((self.word() as u64) * 100) >> 32) < p as u64 && self.pos <= self.w.len()
+    }
+    pub fn pick<'b, T>(&mut self, xs: &'b [T]) -> &'b T {
+        &xs[self.choose(xs.len())]
+    }
+    /// weighted choice
+    pub fn weighted(&mut self, weights: &[u32]) -> usize {
+        let total: u32 = weights.iter().sum();
+        if total == 0 {
+            return 0;
+        }
+        let mut x = ((self.word() as u64 * total as u64) >> 32) as u32;
+        for (i, w) in weights.iter().enumerate() {
+            if x < *w {
+                return i;
+            }
+            x -= w;
+        }
+        weights.len() - 1
+    }
+}
+
+/// Weights (percent) of the generator; one profile per property family.
+#[derive(Clone, Debug)]
+pub struct Profile {
+    pub name: &'static str,
+    pub max_types: usize,
+    pub generics: u32,
+    pub unusual_idents: u32,
+    pub rename: u32,
+    pub rename_all: u32,
+    pub special_strings: u32,
+    /// allow `"`, `\`, newline and the empty string in rename/tag/content values
+    pub escape_strings: bool,
+    pub docs: u32,
+    /// doc texts that can break containment (`*/`, blank line in block comment)
+    pub nasty_docs: bool,
+    pub export_to: u32,
+    pub shared_files: u32,
+    pub flatten: u32,
+    pub inline: u32,
+    pub optional: u32,
+    pub skip: u32,
+    pub type_override: u32,
+    pub as_attr: u32,
+    pub recursion: u32,
+    pub user_refs: u32,
+    pub enums: u32,
+    /// derive serde + generate values
+    pub serde: bool,
+    pub library_types: bool,
+    /// generate `struct S(#[serde(skip)] T);` although it is a known finding
+    pub known_newtype_skip: bool,
+    /// avoid leaf types serde's internal Content buffer cannot deserialise (128-bit integers,
+    /// integer/bool map keys): used where witnesses are DEserialised (C02)
+    pub serde_buffer_safe: bool,
+}
+
+impl Profile {
+    pub fn base(name: &'static str) -> Profile {
+        Profile {
+            name,
+            max_types: 5,
+            generics: 25,
+            unusual_idents: 30,
+            rename: 12,
+            rename_all: 30,
+            special_strings: 40,
+            escape_strings: false,
+            docs: 8,
+            nasty_docs: false,
+            export_to: 0,
+            shared_files: 0,
+            flatten: 12,
+            inline: 12,
+            optional: 30,
+            skip: 7,
+            type_override: 3,
+            as_attr: 3,
+            recursion: 6,
+            user_refs: 30,
+            enums: 45,
+            serde: true,
+            library_types: false,
+            known_newtype_skip: false,
+            serde_buffer_safe: false,
+        }
+    }
+}
+
+const PRIMS: &[&str] = &[
+    "i32", "u8", "u64", "i64", "f64", "bool", "String", "char", "u16", "i8", "f32", "usize", "u128", "i128", "u32", "isize", "()",
+];
+const CONVENTIONAL_FIELDS: &[&str] = &[
+    "id", "name", "first_name", "last_name", "count", "is_active", "created_at", "value", "items", "data", "kind_of", "x", "y",
+    "user_id", "email_address", "inner", "payload", "flag", "total_count", "http_status", "a", "b", "c", "d", "left", "right",
+];
+const UNUSUAL_FIELDS: &[&str] = &[
+    "fooBar", "FooBar", "_x", "x_", "a__b", "r#type", "r#fn", "r#match", "größe", "ünï_cödé", "中文", "HTTPServer", "getHTTP_response",
+    "a1", "_1", "A", "aB", "Ab_cD", "r#async", "field_9_z", "snake_Case_Mixed", "r#struct", "ß", "__x", "r#enum", "r#Self_",
+    "string", "number", "never", "null", "undefined", "r#in", "r#for", "r#let",
+];
+const CONVENTIONAL_VARIANTS: &[&str] = &[
+    "Alpha", "Beta", "Gamma", "Delta", "HttpError", "NotFound", "Ok2", "Empty", "Leaf", "Node", "Pair", "Named", "First", "Second",
+];
+const UNUSUAL_VARIANTS: &[&str] = &[
+    "Foo_Bar", "fooBar", "foo_bar", "HTTPError", "A", "a", "X1", "r#type", "Ärger", "中", "_U", "V_", "A__B", "SCREAMING_CASE",
+    "r#fn", "camelCaseVariant", "Z9z",
+];
+const TYPE_NAMES: &[&str] = &[
+    "User", "Account", "Item", "Point", "Shape", "Event", "Config", "Wrapper", "Pair", "Tree", "Msg", "Status", "Inner", "Outer",
+    "Payload", "Record_", "Entry", "Page", "Page2", "Foo", "FooBar", "Bar", "Baz",
+];
+const UNUSUAL_TYPE_NAMES: &[&str] = &["r#type_", "Größe", "T_1", "_Hidden", "Ünï", "snake_type", "X", "Zz", "r#Match"];
+const RENAME_PLAIN: &[&str] = &["renamed", "Other", "x2", "camelName", "snake_name", "ID"];
+const RENAME_SPECIAL: &[&str] = &["kebab-name", "with space", "1leading", "dollar$", "ünï", "a.b", "a/b", "@at", "#hash", "in", "中文"];
+const RENAME_ESCAPE: &[&str] = &["quo\"te", "back\\slash", "", "new\nline", "tab\there", "a\"b\\c"];
+const TAGS: &[&str] = &["tg", "kind_", "$t", "t-g", "T G", "ŧ", "__tag"];
+const CONTENTS: &[&str] = &["ct", "content_", "$c", "c-t", "C T", "ç", "__content"];
+const DOC_LINES: &[&str] = &[
+    " A plain doc line.",
+    " second line, with `code` and <html>",
+    " export type Fake = number;",
+    " import type { X } from \"./x\";",
+    " quotes \" ' and backslash \\ here",
+    " ünïcödé 中文 text",
+    " /* an opener inside",
+    " @deprecated since 1.0",
+    "",
+    " trailing spaces   ",
+    " a very long line: Lorem ipsum dolor sit amet, consectetur adipiscing elit, sed do eiusmod tempor incididunt ut labore et dolore magna aliqua. Ut enim ad minim veniam, quis nostrud exercitation ullamco laboris nisi ut aliquip ex ea commodo consequat.",
+    " glob src/**/mod.rs",
+];
+const DOC_NASTY: &[&str] = &[" closes */ early", " glob **/*.rs here", " */"];
+
+pub struct Names {
+    used: std::collections::BTreeSet<String>,
+    counter: usize,
+}
+
+impl Names {
+    fn new() -> Self {
+        Names { used: Default::default(), counter: 0 }
+    }
+    /// a name that has not been used in this module (compared without `r#`, case-insensitively
+    /// and without underscores so that case conversions cannot make two names collide)
+    fn fresh(&mut self, t: &mut Tape, pools: &[&[&str]], weights: &[u32], fallback: &str) -> String {
+        for _ in 0..6 {
+            let pool = pools[t.weighted(weights)];
+            let cand = *t.pick(pool);
+            if self.claim(cand) {
+                return cand.to_string();
+            }
+        }
+        loop {
+            self.counter += 1;
+            let cand = format!("{fallback}{}", self.counter);
+            if self.claim(&cand) {
+                return cand;
+            }
+        }
+    }
+    fn key(s: &str) -> String {
+        s.trim_start_matches("r#").replace(['_', '-', ' '], "").to_lowercase()
+    }
+    fn claim(&mut self, s: &str) -> bool {
+        let k = Self::key(s);
+        if k.is_empty() {
+            return self.used.insert(format!("<{s}>"));
+        }
+        self.used.insert(k)
+    }
+}
+
+struct Cx<'p> {
+    p: &'p Profile,
+    names: Names,
+    types: Vec<TypeDef>,
+    /// definitions already flattened into the container (struct / struct variant) being generated
+    flattened_here: std::collections::BTreeSet<usize>,
+}
+
+fn has_default(ty: &TyExpr) -> bool {
+    match ty {
+        TyExpr::Prim(_) => true,
+        TyExpr::Option(_) | TyExpr::Vec(_) | TyExpr::Map(..) => true,
+        TyExpr::Tuple(ts) => ts.iter().all(has_default),
+        TyExpr::Array(t, n) => *n <= 32 && has_default(t),
+        TyExpr::Wrap(w, t) => matches!(*w, "Box" | "Rc" | "Arc" | "Cell" | "RefCell" | "Mutex") && has_default(t),
+        _ => false,
+    }
+}
+
+fn mentions_user(ty: &TyExpr) -> bool {
+    match ty {
+        TyExpr::User(..) => true,
+        TyExpr::Prim(_) | TyExpr::Param(_) | TyExpr::SelfRef(_) => false,
+        TyExpr::Option(t) | TyExpr::Vec(t) | TyExpr::Array(t, _) | TyExpr::Wrap(_, t) => mentions_user(t),
+        TyExpr::Tuple(ts) => ts.iter().any(mentions_user),
+        TyExpr::Map(k, v, _) => mentions_user(k) || mentions_user(v),
+    }
+}
+
+/// the definition a flattened field merges into its parent (through transparent wrappers)
+pub fn flatten_target(ty: &TyExpr) -> Option<usize> {
+    match ty {
+        TyExpr::User(i, _) => Some(*i),
+        TyExpr::Wrap(_, t) => flatten_target(t),
+        _ => None,
+    }
+}
+
+fn contains_tuple(ty: &TyExpr) -> bool {
+    match ty {
+        TyExpr::Tuple(_) => true,
+        TyExpr::Prim(_) | TyExpr::Param(_) | TyExpr::SelfRef(_) => false,
+        TyExpr::Option(t) | TyExpr::Vec(t) | TyExpr::Array(t, _) | TyExpr::Wrap(_, t) => contains_tuple(t),
+        TyExpr::Map(k, v, _) => contains_tuple(k) || contains_tuple(v),
+        TyExpr::User(_, args) => args.iter().any(contains_tuple),
+    }
+}
+
+/// serde_derive itself panics (byte slice at 1) when camelCase meets a name whose first letter
+/// is not ASCII; such a program does not derive serde at all. Prefix those names.
+fn sanitize_for_serde_camel(td: &mut TypeDef) {
+    fn bad(id: &str) -> bool {
+        id.trim_start_matches("r#").chars().find(|c| *c != '_').map_or(true, |c| !c.is_ascii())
+    }
+    fn fix_fields(fs: &mut [Field]) {
+        for f in fs {
+            if let Some(id) = &f.ident {
+                if bad(id) {
+                    f.ident = Some(format!("x_{}", id.trim_start_matches("r#")));
+                }
+            }
+        }
+    }
+    let container = td.attrs.rename_all == Some(Rule::Camel);
+    let raf = td.attrs.rename_all_fields == Some(Rule::Camel);
+    match &mut td.body {
+        Body::Named(fs) if container => fix_fields(fs),
+        Body::Enum(vs) => {
+            for v in vs {
+                if container && bad(&v.ident) {
+                    v.ident = format!("X{}", v.ident.trim_start_matches("r#"));
+                }
+                if let VBody::Named(fs) = &mut v.body {
+                    if raf || v.rename_all == Some(Rule::Camel) {
+                        fix_fields(fs);
+                    }
+                }
+            }
+        }
+        _ => (),
+    }
+}
+
+fn is_copy(ty: &TyExpr) -> bool {
+    matches!(ty, TyExpr::Prim(p) if *p != "String")
+}
+
+impl Cx<'_> {
+    fn flattenable(&self, idx: usize) -> bool {
+        let td = &self.types[idx];
+        if !td.params.is_empty() {
+            return false;
+        }
+        match &td.body {
+            Body::Named(fs) => fs.iter().any(|f| !f.skip) && td.attrs.type_override.is_none(),
+            // flattening an enum: serde needs every value to serialise as a map
+            Body::Enum(vs) => {
+                !vs.is_empty()
+                    && match td.attrs.repr() {
+                        // (a newtype variant whose field is skipped is written like a unit variant)
+                        Repr::External => vs.iter().filter(|v| !v.skip).all(|v| match &v.body {
+                            VBody::Unit => false,
+                            VBody::Newtype(f) => !f.skip,
+                            _ => true,
+                        }),
+                        Repr::Internal | Repr::Adjacent => vs.iter().all(|v| !v.untagged),
+                        Repr::Untagged => false,
+                    }
+            }
+            _ => false,
+        }
+    }
+
+    fn struct_like(&self, idx: usize) -> bool {
+        let td = &self.types[idx];
+        td.params.is_empty() && matches!(&td.body, Body::Named(fs) if fs.iter().any(|f| !f.skip && !f.flatten)) && td.attrs.tag.is_none()
+    }
+
+    fn unit_enum(&self, idx: usize) -> bool {
+        let td = &self.types[idx];
+        td.params.is_empty()
+            && td.attrs.repr() == Repr::External
+            && matches!(&td.body, Body::Enum(vs) if !vs.is_empty() && vs.iter().all(|v| matches!(v.body, VBody::Unit) && !v.skip && !v.untagged))
+    }
+
+    fn gen_user(&mut self, t: &mut Tape, params: &[Param], depth: u32) -> Option<TyExpr> {
+        if self.types.is_empty() {
+            return None;
+        }
+        let idx = t.choose(self.types.len());
+        let n = self.types[idx].params.len();
+        let mut args = vec![];
+        for _ in 0..n {
+            args.push(self.gen_ty_inner(t, params, depth + 1, true));
+        }
+        Some(TyExpr::User(idx, args))
+    }
+
+    fn gen_key(&mut self, t: &mut Tape) -> TyExpr {
+        let unit_enums: Vec<usize> = (0..self.types.len()).filter(|i| self.unit_enum(*i)).collect();
+        let ints = if self.p.serde_buffer_safe { 0 } else { 1 };
+        match t.weighted(&[40, 12 * ints, 8 * ints, 8 * ints, 6, 6 * ints, if unit_enums.is_empty() { 0 } else { 20 }]) {
+            0 => TyExpr::Prim("String"),
+            1 => TyExpr::Prim("i32"),
+            2 => TyExpr::Prim("u8"),
+            3 => TyExpr::Prim("u64"),
+            4 => TyExpr::Prim("char"),
+            5 => TyExpr::Prim("bool"),
+            _ => TyExpr::User(*t.pick(&unit_enums), vec![]),
+        }
+    }
+
+    fn gen_ty(&mut self, t: &mut Tape, params: &[Param]) -> TyExpr {
+        self.gen_ty_inner(t, params, 0, false)
+    }
+
+    fn gen_ty_inner(&mut self, t: &mut Tape, params: &[Param], depth: u32, simple: bool) -> TyExpr {
+        let deep = depth >= 2 || simple;
+        let w_user = if self.types.is_empty() { 0 } else { self.p.user_refs };
+        let w_param = if params.is_empty() { 0 } else { 18 };
+        let w = [
+            38,                          // 0 prim
+            if deep { 4 } else { 14 },   // 1 option
+            if deep { 4 } else { 12 },   // 2 vec
+            w_user,                      // 3 user
+            w_param,                     // 4 param
+            if deep { 0 } else { 5 },    // 5 map
+            if deep { 0 } else { 4 },    // 6 tuple
+            if deep { 0 } else { 3 },    // 7 array
+            if deep { 1 } else { 5 },    // 8 wrapper
+        ];
+        match t.weighted(&w) {
+            0 => {
+                let p = *t.pick(PRIMS);
+                if self.p.serde_buffer_safe && (p == "u128" || p == "i128") {
+                    TyExpr::Prim("u64")
+                } else {
+                    TyExpr::Prim(p)
+                }
+            }
+            1 => TyExpr::Option(Box::new(self.gen_ty_inner(t, params, depth + 1, simple))),
+            2 => TyExpr::Vec(Box::new(self.gen_ty_inner(t, params, depth + 1, simple))),
+            3 => self.gen_user(t, params, depth).unwrap_or(TyExpr::Prim("i32")),
+            4 => TyExpr::Param(t.pick(params).name.clone()),
+            5 => {
+                let k = self.gen_key(t);
+                let v = self.gen_ty_inner(t, params, depth + 1, simple);
+                TyExpr::Map(Box::new(k), Box::new(v), t.pct(50))
+            }
+            6 => {
+                let n = 2 + t.choose(2);
+                TyExpr::Tuple((0..n).map(|_| self.gen_ty_inner(t, params, depth + 1, true)).collect())
+            }
+            7 => TyExpr::Array(Box::new(self.gen_ty_inner(t, params, depth + 1, true)), *t.pick(&[0usize, 1, 2, 3])),
+            _ => {
+                let inner = self.gen_ty_inner(t, params, depth + 1, simple);
+                let w = *t.pick(&["Box", "Rc", "Arc", "RefCell", "Mutex", "Cell"]);
+                if w == "Cell" && !is_copy(&inner) {
+                    TyExpr::Wrap("Box", Box::new(inner))
+                } else {
+                    TyExpr::Wrap(w, Box::new(inner))
+                }
+            }
+        }
+    }
+
+    fn gen_doc(&mut self, t: &mut Tape) -> Option<Doc> {
+        if !t.pct(self.p.docs) {
+            return None;
+        }
+        let n = 1 + t.choose(3);
+        let mut lines: Vec<String> = (0..n).map(|_| t.pick(DOC_LINES).to_string()).collect();
+        if self.p.nasty_docs && t.pct(25) {
+            lines.push(t.pick(DOC_NASTY).to_string());
+        }
+        let style = match t.weighted(&[60, 20, 20]) {
+            0 => DocStyle::Line,
+            1 => DocStyle::Attr,
+            _ => DocStyle::Block,
+        };
+        if style == DocStyle::Block {
+            // a block comment cannot contain `*/` in Rust either
+            lines.retain(|l| !l.contains("*/"));
+            if !self.p.nasty_docs {
+                lines.retain(|l| !l.trim().is_empty());
+            }
+            if lines.is_empty() {
+                lines.push(" block".into());
+            }
+        }
+        Some(Doc { lines, style })
+    }
+
+    fn rename_string(&mut self, t: &mut Tape, local: &mut Names) -> String {
+        // unique in the whole module: a flattened type and its parent must not end up with the
+        // same key (serde would then write a duplicate key - a user error, not a binding defect)
+        let _ = &local;
+        let local = &mut self.names;
+        let escape = self.p.escape_strings;
+        let special = self.p.special_strings;
+        for _ in 0..8 {
+            let s = if escape && t.pct(20) {
+                *t.pick(RENAME_ESCAPE)
+            } else if t.pct(special) {
+                *t.pick(RENAME_SPECIAL)
+            } else {
+                *t.pick(RENAME_PLAIN)
+            };
+            if local.claim(s) {
+                return s.to_string();
+            }
+        }
+        loop {
+            local.counter += 1;
+            let s = format!("ren{}", local.counter);
+            if local.claim(&s) {
+                return s;
+            }
+        }
+    }
+
+    /// definitions whose keys end up in the object of a container that flattens `idx`
+    fn flatten_closure(&self, idx: usize, out: &mut std::collections::BTreeSet<usize>) {
+        if !out.insert(idx) {
+            return;
+        }
+        for f in self.types[idx].all_fields() {
+            if f.flatten {
+                if let Some(i) = flatten_target(&f.ty) {
+                    self.flatten_closure(i, out);
+                }
+            }
+        }
+    }
+
+    fn gen_field(&mut self, t: &mut Tape, params: &[Param], named: bool, local: &mut Names, allow_flatten: bool) -> Field {
+        let ident = if named {
+            let unusual = self.p.unusual_idents;
+            let name = self.names.fresh(t, &[CONVENTIONAL_FIELDS, UNUSUAL_FIELDS], &[100 - unusual, unusual], "fld");
+            local.claim(&name);
+            Some(name)
+        } else {
+            None
+        };
+        let mut f = Field { ident, ty: self.gen_ty(t, params), ..Field::default() };
+        f.docs = self.gen_doc(t);
+        // flatten
+        if named && allow_flatten && t.pct(self.p.flatten) {
+            // the same definition must not be flattened twice into one object (duplicate keys
+            // in serde's output are a user error, not a binding defect)
+            let cands: Vec<usize> = (0..self.types.len())
+                .filter(|i| self.flattenable(*i))
+                .filter(|i| {
+                    let mut c = std::collections::BTreeSet::new();
+                    self.flatten_closure(*i, &mut c);
+                    c.is_disjoint(&self.flattened_here)
+                })
+                .collect();
+            if !cands.is_empty() {
+                let target = *t.pick(&cands);
+                let mut c = std::collections::BTreeSet::new();
+                self.flatten_closure(target, &mut c);
+                self.flattened_here.extend(c);
+                f.ty = TyExpr::User(target, vec![]);
+                // flatten through a transparent wrapper (`Box<Enum>`, `Arc<Struct>`)
+                if t.pct(25) {
+                    f.ty = TyExpr::Wrap(*t.pick(&["Box", "Rc", "Arc"]), Box::new(f.ty));
+                }
+                f.flatten = true;
+                return f;
+            }
+        }
+        if t.pct(self.p.skip) && has_default(&f.ty) {
+            f.skip = true;
+            return f;
+        }
+        if let TyExpr::Option(_) = f.ty {
+            if named && t.pct(self.p.optional) {
+                let nullable = t.pct(40);
+                f.optional = Some(nullable);
+                f.skip_if_none = !nullable || t.pct(50);
+            }
+        }
+        // tuples cannot be inlined (ts-rs panics with "tuple cannot be inlined!": documented non-support)
+        if mentions_user(&f.ty) && !contains_tuple(&f.ty) && t.pct(self.p.inline) {
+            f.inline = true;
+        }
+        if named && t.pct(self.p.rename) {
+            f.rename = Some(self.rename_string(t, local));
+        }
+        if let TyExpr::Prim(p) = f.ty {
+            if t.pct(self.p.type_override) {
+                f.type_override = Some(prim_ts(p).to_string());
+            }
+        }
+        if f.type_override.is_none() && !f.inline && f.optional.is_none() && t.pct(self.p.as_attr) {
+            f.as_same = true;
+        }
+        f
+    }
+
+    fn gen_container_common(&mut self, t: &mut Tape, attrs: &mut ContainerAttrs, ident: &str) {
+        if t.pct(self.p.rename / 2 + 3) {
+            let base = ident.trim_start_matches("r#").trim_end_matches('_');
+            let cand = format!("{}Ts", base);
+            if self.names.claim(&cand) {
+                attrs.rename = Some(cand);
+            }
+        }
+        if t.pct(self.p.export_to) {
+            let dirs = ["", "models/", "models/sub/", "a.b/", "../up/", "deep/er/est/"];
+            let d = *t.pick(&dirs);
+            attrs.export_to = Some(if t.pct(self.p.shared_files) {
+                format!("{d}{}", t.pick(&["shared.ts", "common.ts", "types.ts"]))
+            } else if t.pct(30) {
+                format!("{d}{}_file.ts", ident.trim_start_matches("r#").to_lowercase())
+            } else if d.is_empty() {
+                "./".to_string()
+            } else {
+                d.to_string()
+            });
+        }
+    }
+
+    fn gen_type(&mut self, t: &mut Tape) -> TypeDef {
+        let unusual = self.p.unusual_idents / 2;
+        let ident = self.names.fresh(t, &[TYPE_NAMES, UNUSUAL_TYPE_NAMES], &[100 - unusual, unusual], "Ty");
+        let mut params = vec![];
+        if t.pct(self.p.generics) {
+            let n = 1 + t.weighted(&[70, 30]);
+            for i in 0..n {
+                params.push(Param { name: ["T", "U"][i].to_string(), default: None });
+            }
+            if t.pct(25) {
+                let d = if !self.types.is_empty() && t.pct(40) {
+                    let cands: Vec<usize> = (0..self.types.len()).filter(|i| self.types[*i].params.is_empty()).collect();
+                    if cands.is_empty() { TyExpr::Prim("i32") } else { TyExpr::User(*t.pick(&cands), vec![]) }
+                } else {
+                    TyExpr::Prim(*t.pick(&["i32", "String", "bool"]))
+                };
+                params.last_mut().unwrap().default = Some(d);
+            }
+        }
+        let mut attrs = ContainerAttrs::default();
+        let docs = self.gen_doc(t);
+        self.gen_container_common(t, &mut attrs, &ident);
+        let mut local = Names::new();
+        let is_enum = t.pct(self.p.enums);
+        let body = if is_enum {
+            let repr = match t.weighted(&[35, 25, 20, 20]) {
+                0 => Repr::External,
+                1 => Repr::Internal,
+                2 => Repr::Adjacent,
+                _ => Repr::Untagged,
+            };
+            match repr {
+                Repr::External => (),
+                Repr::Internal => attrs.tag = Some(self.names.fresh(t, &[TAGS], &[100], "tg")),
+                Repr::Adjacent => {
+                    attrs.tag = Some(self.names.fresh(t, &[TAGS], &[100], "tg"));
+                    attrs.content = Some(self.names.fresh(t, &[CONTENTS], &[100], "ct"));
+                }
+                Repr::Untagged => attrs.untagged = true,
+            }
+            if self.p.escape_strings && t.pct(15) {
+                if attrs.tag.is_some() {
+                    attrs.tag = Some(t.pick(&["t\"g", "t\\g"]).to_string());
+                }
+            }
+            if t.pct(self.p.rename_all) {
+                attrs.rename_all = Some(*t.pick(&RULES));
+            }
+            if t.pct(self.p.rename_all / 2) {
+                attrs.rename_all_fields = Some(*t.pick(&RULES));
+            }
+            let nv = 1 + t.weighted(&[15, 30, 30, 15, 10]);
+            let mut variants = vec![];
+            let mut vnames = Names::new();
+            for vi in 0..nv {
+                let unusual = self.p.unusual_idents;
+                let vident = vnames.fresh(t, &[CONVENTIONAL_VARIANTS, UNUSUAL_VARIANTS], &[100 - unusual, unusual], "Var");
+                let shape = t.weighted(&[30, 25, 30, if repr == Repr::Internal { 0 } else { 15 }]);
+                let mut flocal = Names::new();
+                let mut body = match shape {
+                    0 => VBody::Unit,
+                    1 => VBody::Newtype(self.gen_field(t, &params, false, &mut flocal, false)),
+                    2 => {
+                        let n = t.weighted(&[5, 40, 35, 20]);
+                        self.flattened_here.clear();
+                        VBody::Named((0..n).map(|_| self.gen_field(t, &params, true, &mut flocal, true)).collect())
+                    }
+                    _ => {
+                        let n = 2 + t.choose(2);
+                        VBody::Tuple((0..n).map(|_| self.gen_field(t, &params, false, &mut flocal, false)).collect())
+                    }
+                };
+                // internally tagged newtype variants must hold something that serialises as a map
+                if repr == Repr::Internal {
+                    if let VBody::Newtype(f) = &mut body {
+                        let cands: Vec<usize> = (0..self.types.len()).filter(|i| self.struct_like(*i)).collect();
+                        if cands.is_empty() || f.skip {
+                            body = VBody::Unit;
+                        } else {
+                            f.ty = TyExpr::User(*t.pick(&cands), vec![]);
+                            f.inline = false;
+                            f.as_same = false;
+                            f.type_override = None;
+                        }
+                    }
+                }
+                let mut v = Variant { ident: vident, body, ..Variant::default() };
+                v.docs = self.gen_doc(t);
+                if t.pct(self.p.rename) {
+                    v.rename = Some(self.rename_string(t, &mut vnames));
+                }
+                if matches!(v.body, VBody::Named(_)) && t.pct(self.p.rename_all / 2) {
+                    v.rename_all = Some(*t.pick(&RULES));
+                }
+                if vi > 0 && t.pct(self.p.skip) {
+                    v.skip = true;
+                }
+                variants.push(v);
+            }
+            // per-variant untagged: a suffix of the variant list
+            if repr != Repr::Untagged && nv >= 2 && t.pct(12) {
+                let k = 1 + t.choose(nv - 1);
+                for v in variants.iter_mut().skip(nv - k) {
+                    v.untagged = true;
+                }
+            }
+            // self reference in a non-first variant (not in untagged enums: serde's own untagged
+            // deserialiser recurses without bound on `More(Box<Self>)`)
+            if t.pct(self.p.recursion) && params.is_empty() && repr != Repr::Untagged && !variants.iter().any(|v| v.untagged) {
+                let vident = vnames.fresh(t, &[&["Rec", "Nested", "More"]], &[100], "RecVar");
+                let body = if repr == Repr::Internal {
+                    VBody::Named(vec![Field { ident: Some(self.names.fresh(t, &[&["next", "child", "rest"]], &[100], "nxt")), ty: TyExpr::SelfRef("Option<Box<Self>>"), ..Field::default() }])
+                } else {
+                    VBody::Newtype(Field { ident: None, ty: TyExpr::SelfRef("Box<Self>"), ..Field::default() })
+                };
+                let pos = variants.iter().position(|v| v.untagged).unwrap_or(variants.len());
+                variants.insert(pos.max(1), Variant { ident: vident, body, ..Variant::default() });
+            }
+            Body::Enum(variants)
+        } else {
+            let kind = t.weighted(&[62, 12, 12, 5, 5, 4]);
+            match kind {
+                0 => {
+                    let n = 1 + t.weighted(&[20, 35, 30, 15]);
+                    self.flattened_here.clear();
+                    let mut fields: Vec<Field> = (0..n).map(|_| self.gen_field(t, &params, true, &mut local, true)).collect();
+                    if t.pct(self.p.recursion) && params.is_empty() {
+                        let (name, ty) = *t.pick(&[("next", "Option<Box<Self>>"), ("children", "Vec<Self>"), ("parent", "Option<Box<Self>>")]);
+                        fields.push(Field { ident: Some(self.names.fresh(t, &[&[name]], &[100], "rec")), ty: TyExpr::SelfRef(ty), ..Field::default() });
+                    }
+                    if t.pct(self.p.rename_all) {
+                        attrs.rename_all = Some(*t.pick(&RULES));
+                    }
+                    if t.pct(10) {
+                        // unique in the module: a struct tag and the tag of a flattened enum must differ
+                        attrs.tag = Some(self.names.fresh(t, &[TAGS], &[100], "tg"));
+                    }
+                    if t.pct(self.p.optional / 3) {
+                        let nullable = t.pct(40);
+                        attrs.optional_fields = Some(nullable);
+                        for f in fields.iter_mut() {
+                            let is_option = matches!(f.ty, TyExpr::Option(_)) || matches!(f.ty, TyExpr::SelfRef(s) if s.starts_with("Option<"));
+                            if is_option && !f.skip && !f.flatten && f.type_override.is_none() {
+                                f.skip_if_none = !nullable || f.skip_if_none;
+                                f.as_same = false;
+                            }
+                        }
+                    }
+                    Body::Named(fields)
+                }
+                1 => {
+                    let mut f = self.gen_field(t, &params, false, &mut local, false);
+                    // known finding (C01 newtype-struct-with-skipped-field): serde writes `[]`, ts-rs declares `null`
+                    if f.skip && !self.p.known_newtype_skip {
+                        f.skip = false;
+                    }
+                    Body::Newtype(f)
+                }
+                2 => {
+                    let n = 2 + t.choose(3);
+                    Body::Tuple((0..n).map(|_| self.gen_field(t, &params, false, &mut local, false)).collect())
+                }
+                3 => Body::Unit,
+                4 => Body::Named(vec![]),
+                _ => Body::Tuple(vec![]),
+            }
+        };
+        let mut td = TypeDef { ident, params, body, attrs, docs };
+        fix_unused_params(&mut td);
+        sanitize_for_serde_camel(&mut td);
+        td
+    }
+}
+
+/// every declared parameter must be used by a non-skipped field (rustc E0392 / ts-rs bound
+/// generation); unused ones get a trailing field
+fn fix_unused_params(td: &mut TypeDef) {
+    fn uses(ty: &TyExpr, p: &str) -> bool {
+        match ty {
+            TyExpr::Param(n) => n == p,
+            TyExpr::Prim(_) | TyExpr::SelfRef(_) => false,
+            TyExpr::Option(t) | TyExpr::Vec(t) | TyExpr::Array(t, _) | TyExpr::Wrap(_, t) => uses(t, p),
+            TyExpr::Tuple(ts) => ts.iter().any(|t| uses(t, p)),
+            TyExpr::Map(k, v, _) => uses(k, p) || uses(v, p),
+            TyExpr::User(_, args) => args.iter().any(|t| uses(t, p)),
+        }
+    }
+    let names: Vec<String> = td.params.iter().map(|p| p.name.clone()).collect();
+    for p in names {
+        let used = td.all_fields().iter().any(|f| !f.skip && uses(&f.ty, &p));
+        if used {
+            continue;
+        }
+        let extra = Field { ident: Some(format!("extra_{}", p.to_lowercase())), ty: TyExpr::Param(p.clone()), ..Field::default() };
+        match &mut td.body {
+            Body::Named(fs) => fs.push(extra),
+            Body::Tuple(fs) => fs.push(Field { ident: None, ..extra }),
+            Body::Newtype(f) => {
+                let first = std::mem::take(f);
+                td.body = Body::Tuple(vec![first, Field { ident: None, ..extra }]);
+            }
+            Body::Unit => td.body = Body::Named(vec![extra]),
+            Body::Enum(vs) => {
+                let vident = format!("Uses{p}");
+                let untagged_pos = vs.iter().position(|v| v.untagged).unwrap_or(vs.len());
+                let body = if td.attrs.repr() == Repr::Internal {
+                    VBody::Named(vec![extra])
+                } else {
+                    VBody::Newtype(Field { ident: None, ..extra })
+                };
+                vs.insert(untagged_pos, Variant { ident: vident, body, ..Variant::default() });
+            }
+        }
+    }
+}
+
+pub fn prim_ts(p: &str) -> &'static str {
+    match p {
+        "i32" | "u8" | "u16" | "i8" | "i16" | "u32" | "usize" | "isize" | "f32" | "f64" => "number",
+        "u64" | "i64" | "u128" | "i128" => "bigint",
+        "bool" => "boolean",
+        "String" | "char" => "string",
+        "()" => "null",
+        _ => "unknown",
+    }
+}
+
+/// Generate one module from a tape.
+pub fn gen_module(words: &[u32], profile: &Profile, name: &str) -> Module {
+    let mut t = Tape::new(words);
+    let mut cx = Cx { p: profile, names: Names::new(), types: vec![], flattened_here: Default::default() };
+    let n = 1 + t.choose(profile.max_types);
+    for _ in 0..n {
+        let td = cx.gen_type(&mut t);
+        cx.types.push(td);
+    }
+    let mut insts = vec![];
+    let simple_args: Vec<TyExpr> = vec![
+        TyExpr::Prim("i32"),
+        TyExpr::Prim("String"),
+        TyExpr::Option(Box::new(TyExpr::Prim("u8"))),
+        TyExpr::Vec(Box::new(TyExpr::Prim("bool"))),
+        TyExpr::Prim("u64"),
+        TyExpr::Tuple(vec![TyExpr::Prim("i32"), TyExpr::Prim("String")]),
+    ];
+    for (i, td) in cx.types.iter().enumerate() {
+        if td.params.is_empty() {
+            insts.push(TyExpr::User(i, vec![]));
+        } else {
+            let ninst = 2 + t.choose(2);
+            for k in 0..ninst {
+                let mut args = vec![];
+                for _ in &td.params {
+                    let user_cands: Vec<usize> = (0..i).filter(|j| cx.types[*j].params.is_empty()).collect();
+                    if !user_cands.is_empty() && t.pct(35) {
+                        args.push(TyExpr::User(*t.pick(&user_cands), vec![]));
+                    } else {
+                        args.push(simple_args[(t.choose(simple_args.len()) + k) % simple_args.len()].clone());
+                    }
+                }
+                let inst = TyExpr::User(i, args);
+                if !insts.contains(&inst) {
+                    insts.push(inst);
+                }
+            }
+        }
+    }
+    Module { name: name.to_string(), types: cx.types, insts, serde: profile.serde }
+}
